@@ -21,6 +21,11 @@ SPEC = dict(
              n=dict(quick=60, thorough=1500), timeout=dict(quick=300, thorough=1500),
              ev=dict(requires=["V.lib.Bytes", "V.models.Conflict"], case_type="Conflict.case",
                      mismatch="Conflict.mismatch", monitor="Conflict.monitor_fail")),
+        dict(name="iface", kind="test", pkg="./overlord/ifacestate", run="TestInterfaceManager",
+             gocheck="verifC14IfaceSuite.TestVerifC14Iface$",
+             n=dict(quick=30, thorough=800), timeout=dict(quick=300, thorough=1500),
+             ev=dict(requires=["V.lib.Bytes", "V.models.Conflict"], case_type="Conflict.case",
+                     mismatch="Conflict.mismatch", monitor="Conflict.monitor_fail")),
     ],
     classify=classify,
     rule=("direct: one synthetic change in a fresh state, EVERY combination of kind (the 7 special-cased exclusive kinds, the 2 exempt "
@@ -32,7 +37,14 @@ SPEC = dict(
           "changes. history: through the public API with the suite's fake store and backend: every ordered pair of requests among "
           "Remove/Disable/Enable/Revert/Switch/Update/Install on 4 snaps (quick: all same-snap pairs and a sample of the others), "
           "repeated after the first change made partial progress and after it finished; plus random sequences of 4-14 requests and "
-          "progress events (task Done, task back to Do, finish change). Non-trivial = at least one change present (direct) / a "
+          "progress events (task Done, task back to Do, finish change); the history driver also asks snapstate.Alias / "
+          "DisableAllAliases / Prefer. iface: with interfaceManagerSuite's fixtures (consumer:plug-producer:slot connected and active, "
+          "consumer:plug2-producer:slot2 remembered in `conns` but not active, consumer2:plug free) the entry points ifacestate.Connect, "
+          "Disconnect, Forget(active), Forget(remembered but inactive), Forget(unknown), each with another change (enable-snap / "
+          "pre-download / remodel) on the plug snap, the slot snap or an unrelated snap in progress and after it finished, and asked "
+          "twice in a row (45 histories in the quick tier) + 30 random histories; recorded like the history driver; the model operation "
+          "names the two snaps of the connection as checked and the affected snaps of the tasks created, the monitor also demands "
+          "that the tasks of an accepted request affect only checked snaps. Non-trivial = at least one change present (direct) / a "
           "rejected and two accepted requests (history)."),
     exhaustive=dict(quick=False, thorough=True),
     trusted_base=[
@@ -40,13 +52,15 @@ SPEC = dict(
         "hand-written model coq/models/Conflict.v of overlord/snapstate/conflict.go, tied by the differential runs "
         "(harness/overlay/overlord/snapstate/zz_verif_c14_test.go, zz_verif_c14_api_test.go)",
         "changeIsSnapdDowngrade (version comparison, reading the current snapd info) is an attribute of the modelled change, validated by the direct driver on four version situations",
+        "the iface driver puts other subsystems' changes into the state directly (model operation Inject, outside the theorems' "
+        "well-formed histories); ifacestate's auto-connect / hotplug / ConnectOnInstall paths (tasks created inside running changes) are not exercised",
         "in the history driver handlers never run: progress is made by setting task statuses; the suite's fakeStore / fakeSnappyBackend stand for the store and the system",
     ],
     assumptions=[
         "the per-snap invariant is about requests that go through the conflict check and whose tasks affect only snaps they checked (req_wf); "
         "call sites that create tasks without calling CheckChangeConflict* are outside the model (which API calls the check is tied by the "
-        "history driver for Remove/Disable/Enable/Revert/Switch/Update/Install only; ifacestate.Connect/Disconnect, aliases, snapshots, "
-        "quota and service requests are not exercised)",
+        "history and iface drivers for Remove/Disable/Enable/Revert/Switch/Update/Install, Alias/DisableAllAliases/Prefer, "
+        "ifacestate.Connect/Disconnect/Forget; snapshots, quota and service requests, RemoveManualAlias are not exercised)",
         "a finished change is final: no progress events or tasks are added to a change whose tasks are all ready (Change.IsReady is sticky in the code)",
         "a change without tasks counts as ready (Change.Status() is Hold); Change.IsReady() is false for it but it has no task to conflict with",
         "which conflicting change the error names depends on map iteration order and is not compared; only conflict / no conflict is",
